@@ -298,6 +298,8 @@ func cmdCheck(eng *Engine, args []string) int {
 	nUnitOb := nOb
 	// finite-domain obligations (complete evaluation of the real code)
 	scanResults := append(append(eng.finiteDomain(id, tmp), eng.confinedChecks(id)...), eng.mapOrderChecks(id)...)
+	scanResults = append(scanResults, eng.errDynTypeChecks(id)...)
+	scanResults = append(scanResults, eng.quotedParamChecks(id)...)
 	if id == "C16" {
 		scanResults = append(scanResults, eng.repeatChecks(id)...)
 		// determinism of what is computed: C06's obligation set, re-run under C16
@@ -335,7 +337,7 @@ func cmdCheck(eng *Engine, args []string) int {
 		}
 		// the mismatching cases ARE the failing inputs, observed on the real code
 		if strings.Contains(r.Name, "/bounded/") {
-			violation(r.Name, fmt.Sprintf("obligation: %s\nkind: bounded check of the real function\ngoal: %s\nREPRODUCED on the real code (go test -overlay harness in package directive):\n%s\n", r.Name, r.Goal, r.Detail), false)
+			violation(r.Name, fmt.Sprintf("obligation: %s\nkind: bounded check of the real code (go test -overlay harness, nothing written to /repo)\ngoal: %s\nREPRODUCED on the real code:\n%s\n", r.Name, r.Goal, r.Detail), false)
 		} else if strings.Contains(r.Name, "/finite-domain/") {
 			violation(r.Name, fmt.Sprintf("obligation: %s\nkind: finite-domain\ngoal: %s\nREPRODUCED on the real code (go test -overlay harness in package directive):\n%s\n", r.Name, r.Goal, r.Detail), false)
 		} else if id == "C16" {
